@@ -16,7 +16,7 @@ from . import engine
 CODEGEN_PREFIXES = ["xsdata.codegen", "xsdata.utils.graphs", "xsdata.utils.collections", "xsdata.models.xsd", "xsdata.models.wsdl", "xsdata.models.dtd", "xsdata.models.mixins",
                     "xsdata.formats.dataclass.generator", "xsdata.formats.dataclass.filters", "xsdata.formats.converter", "xsdata.formats.mixins"]
 SETORDER = {
-    "C12": {"prefixes": CODEGEN_PREFIXES, "own_ids": True},
+    "C12": {"prefixes": CODEGEN_PREFIXES + ["toposort"], "own_ids": True},
     "C04": {"prefixes": ["xsdata.formats.dataclass.parsers.dict", "xsdata.formats.dataclass.context", "xsdata.formats.dataclass.serializers.dict"]},
 }
 
